@@ -45,7 +45,7 @@ func Spec() *mon.Spec {
 
 func gen(g *mon.Gen) {
 	rng := g.Rng
-	n := g.Pick(5000, 3000000)
+	n := g.Pick(30000, 3000000)
 	for i := 0; i < n; i++ {
 		short := 0
 		if i%3 == 0 {
